@@ -51,20 +51,21 @@ type resetSpan struct {
 }
 
 type World struct {
-	T     *testing.T
-	Res   *vh.Result
-	Tr    *vh.Trace
-	WI    int
-	Net   *chainkit.Net
-	SRIH  bool
-	MTB   uint32 // protocol MaxTraceableBlocks (0 = chainkit default)
-	Node  Variant
-	MaxTx int
-	Cont  int // how many further blocks a recovered node is fed (0 = all)
-	Quiet [2]uint32 // blocks with heights in [Quiet[0], Quiet[1]] are generated empty (long chains)
-	P2P   bool // P2PStateExchangeExtensions (state-sync worlds)
-	SSI   int  // StateSyncInterval
-	jump  *jumpInfo
+	T         *testing.T
+	Res       *vh.Result
+	Tr        *vh.Trace
+	WI        int
+	Net       *chainkit.Net
+	SRIH      bool
+	MTB       uint32 // protocol MaxTraceableBlocks (0 = chainkit default)
+	Node      Variant
+	MaxTx     int
+	Cont      int       // how many further blocks a recovered node is fed (0 = all)
+	Quiet     [2]uint32 // blocks with heights in [Quiet[0], Quiet[1]] are generated empty (long chains)
+	P2P       bool      // P2PStateExchangeExtensions (state-sync worlds)
+	ConcFlush bool      // flushes run concurrently with AddBlock (as the node's own persisting goroutine does)
+	SSI       int       // StateSyncInterval
+	jump      *jumpInfo
 
 	ref    *core.Blockchain
 	refRec *RecStore
@@ -223,7 +224,33 @@ func (w *World) Run(inner storage.Store) *runResult {
 				w.T.Fatalf("generator: %v", err)
 			}
 			rec.Phase = "add"
-			if err := bc.AddBlock(w.block(h + 1)); err != nil {
+			var stop chan struct{}
+			var stopped sync.WaitGroup
+			if w.ConcFlush {
+				// the node's persisting goroutine runs concurrently with block processing: flushes (and the collection
+				// passes that follow them) fall anywhere inside AddBlock; whatever reaches the disk is one more crash point.
+				// The block counts as accepted from here on: a flush after its commit may already carry it.
+				rec.Acc = h + 1
+				stop = make(chan struct{})
+				stopped.Add(1)
+				go func() {
+					defer stopped.Done()
+					for {
+						select {
+						case <-stop:
+							return
+						default:
+							_ = bc.VerifPersist()
+						}
+					}
+				}()
+			}
+			err := bc.AddBlock(w.block(h + 1))
+			if stop != nil {
+				close(stop)
+				stopped.Wait()
+			}
+			if err != nil {
 				w.Res.Violate(map[string]any{"kind": "valid-block-rejected", "node": w.Node.Name, "phase": "run"},
 					fmt.Sprintf("block %d rejected: %v", h+1, err), w.replay())
 				return nil
@@ -346,9 +373,9 @@ type Outcome struct {
 	ContN    int             `json:"cont_n"`
 	ContDiff []string        `json:"cont_diff"`
 	EndH     int             `json:"end_h"`
-	Resumed  int             `json:"resumed"` // batches the restart itself wrote
+	Resumed  int             `json:"resumed"`  // batches the restart itself wrote
 	Resynced bool            `json:"resynced"` // state-sync world: the node came back before the jump and was synchronised again
-	DumpEq   int             `json:"dump_eq"` // -1 not applicable, 0 differs, 1 equal to the uninterrupted reset's database
+	DumpEq   int             `json:"dump_eq"`  // -1 not applicable, 0 differs, 1 equal to the uninterrupted reset's database
 	DumpDiff []string        `json:"dump_diff"`
 	Pre      Proj            `json:"pre"`  // projection of the reopened database
 	Post     Proj            `json:"post"` // projection of the database after the restart
